@@ -31,6 +31,7 @@ func checkC07(c *ev.Ctx) {
 	par(len(cases), func(i int) {
 		k := cases[i]
 		k.ID = "w" + k.ID
+		noteCase(k.ID)
 		if !want(c, k.ID) {
 			return
 		}
@@ -175,6 +176,7 @@ func checkC07(c *ev.Ctx) {
 	}
 	par(len(streams), func(i int) {
 		s := streams[i]
+		noteCase(s.ID)
 		if !want(c, s.ID) {
 			return
 		}
